@@ -117,9 +117,9 @@ type vC07Config struct {
 }
 
 // a supervisor built by the real constructor from symbolic options + the reference model of what it must contain
-func vC07_supervisor() (*supervisor.Supervisor, *vC07Config) {
+func vC07_supervisor(strategy int) (*supervisor.Supervisor, *vC07Config) {
 	c := &vC07Config{}
-	c.strategy = supervisor.Strategy(vChoose("strategy", 2))
+	c.strategy = supervisor.Strategy(strategy)
 	// defaults of NewSupervisor
 	c.has[0], c.dir[0] = true, supervisor.StopDirective
 	c.has[1], c.dir[1] = true, supervisor.RestartDirective
@@ -207,7 +207,7 @@ func vC07_refBackoff(n int64, initial, max time.Duration) time.Duration {
 // ---- the supervisor's own lookup API ---------------------------------------------------------------------------------------
 
 func vC07_lookup() {
-	sup, c := vC07_supervisor()
+	sup, c := vC07_supervisor(vChoose("strategy", 2))
 	vAssert(sup.Strategy() == c.strategy, "Strategy returns the configured strategy")
 	vAssert(sup.MaxRetries() == c.maxRetries && sup.Timeout() == c.timeout, "MaxRetries/Timeout return the configured budget")
 	vAssert(sup.InitialDelay() == c.initial && sup.MaxDelay() == c.max && sup.BackoffResetAfter() == c.reset, "backoff getters return the configured (normalised) backoff")
@@ -280,7 +280,7 @@ func vC07_failure() {
 		sib[i] = vC07_pid(sys, sibNames[i])
 		vAssert(sys.t.addNode(parent, sib[i]) == nil, "harness: tree sibling")
 	}
-	sup, c := vC07_supervisor()
+	sup, c := vC07_supervisor(vCase("strategy"))
 	child.supervisor = sup
 	for i := 0; i < nsib; i++ {
 		// a sibling may already be suspended by an earlier failure of its own
@@ -306,7 +306,7 @@ func vC07_failure() {
 	vC07_shutFails = vNondetBool("shutdownFails")
 
 	// the child's handler fails with an error of type t while handling `message`
-	t := vChoose("errType", vC07NTypes)
+	t := vCase("errType")
 	err := vC07_error(t)
 	message := &vC07Msg{}
 	child.notifyParent(newSupervisionSignal(err, message))
